@@ -96,6 +96,9 @@ struct Shape {
   int lenMode;                 // chained: 0 all lengths explicit, 1 last implicit, 2 all implicit
   int split;                   // chained: 0 = [1,..,1,rest], 1 = [rest,1,..,1]
   bool thoroughOnly;
+  int shortBy = 0;             // chained, all lengths explicit: the lengths add up to this many bytes LESS than the fields
+                               // need - such a definition cannot be split "with the defined lengths" without loss and
+                               // has to be rejected when loaded
   bool chained() const { return !chain.empty(); }
   bool masterOnly() const {    // broadcast or master destination: all data in the master part
     std::string z = zz; return z == "fe" || z == "10";
@@ -121,6 +124,12 @@ inline const std::vector<Shape>& shapes() {
       if (w && lm == 2) continue;   // all lengths implicit: nothing defines how a write is split
       s.push_back(Shape{w != 0, "08", "", false, ch, lm, sp, false});
     }
+  }
+  // explicit part lengths that fall short of the defined fields by 1, 2 or 12 bytes (write: master data; read: slave data)
+  for (int w = 0; w < 2; w++) for (int sp = 0; sp < 2; sp++) for (int by : {1, 2, 12}) {
+    Shape x{w != 0, "08", "", false, {"0d0100", "0d0200"}, 0, sp, false};
+    x.shortBy = by;
+    s.push_back(x);
   }
   return s;
 }
